@@ -1030,7 +1030,7 @@ Section Run.
 
   Lemma wf_init storage bal ext : wf (init_state storage bal ext).
   Proof.
-    unfold wf, init_state, msize_ok, MEM_LIMIT; cbn. split; [unfold STACK_SIZE; lia|].
+    unfold wf, init_state, msize_ok, MEM_LIMIT; cbn. split; [vm_compute; discriminate|].
     split; [constructor|]. split; [lia|]. apply Z.pow_nonneg. lia.
   Qed.
 
@@ -1121,3 +1121,243 @@ Section Run.
     apply Forall_forall. intros e He. destruct (C e He) as [H|H]; [cbn in H; contradiction|exact H].
   Qed.
 End Run.
+
+(* ------------------------------------------------------------------------------------------------ *)
+(* extensionality in the word operations: what turns "the Rust word algorithms equal the
+   specification on 256-bit operands" into "the machine running them equals the specification machine" *)
+(* ------------------------------------------------------------------------------------------------ *)
+Section Ext.
+  Variable o1 o2 : word_ops.
+  Variable E : env.
+  Hypothesis Hok : ops_ok o1.
+  Hypothesis Hag : ops_agree o1 o2.
+
+  Lemma sem_ext i args s : Forall in_range args -> sem o1 E i args s = sem o2 E i args s.
+  Proof.
+    intros Ha. destruct Hag as (B & U & T). unfold bin_list, un_list, tern_list in *.
+    repeat match goal with
+           | H : Forall2 _ (_ :: _) (_ :: _) |- _ => inversion H; clear H; subst
+           end.
+    destruct i; cbn [sem]; try reflexivity; unfold bin, un, tern;
+      destruct args as [|a1 [|a2 [|a3 [|a4 ?]]]]; try reflexivity;
+      repeat match goal with
+             | H : Forall _ (_ :: _) |- _ => inversion H; clear H; subst
+             end;
+      f_equal; auto.
+  Qed.
+
+  Lemma step_ext s : Forall in_range (m_stack s) -> step o1 E s = step o2 E s.
+  Proof.
+    intros R. unfold step. destruct (lookup_row (byte_at (code E) (m_pc s))) as [r|]; [|reflexivity].
+    unfold exec_row. destruct (op_kind r); try reflexivity;
+      unfold exec_generic; destruct (take_operands r (m_stack s)) as [c|[args stk']] eqn:T; try reflexivity;
+      (assert (Ra : Forall in_range args);
+       [ unfold take_operands in T; destruct (op_pre r);
+         repeat match type of T with
+                | context [if ?x then _ else _] => destruct x; try discriminate
+                end;
+         injection T as <- <-; try constructor; apply Forall_take; exact R
+       | rewrite (sem_ext (op_instr r) args (set_stack stk' s) Ra); reflexivity ]).
+  Qed.
+
+  (* two word_ops that agree on in-range operands give the same runs *)
+  Theorem run_ext : forall fuel s, wf s -> run o1 E fuel s = run o2 E fuel s.
+  Proof.
+    induction fuel as [|f IH]; intros s W; cbn [run]; [reflexivity|].
+    destruct (codelen E <=? m_pc s); [reflexivity|].
+    rewrite <- (step_ext s) by apply W.
+    pose proof (step_spec o1 E Hok s W) as SP.
+    destruct (step o1 E s) as [s1|o s1]; [|reflexivity]. cbn in SP. apply IH. apply SP.
+  Qed.
+End Ext.
+
+(* ------------------------------------------------------------------------------------------------ *)
+(* program counter: execution only visits instruction boundaries, jumps land on genuine JUMPDESTs *)
+(* ------------------------------------------------------------------------------------------------ *)
+(* PUSHn rows carry exactly the immediate width the specification gives their byte; no other row's
+   byte is a PUSH1..PUSH32 byte *)
+Definition row_pc_ok (r : oprow) : bool :=
+  match op_kind r with
+  | KPush => (op_arg r =? Z.of_nat (pushw (op_byte r))) && (95 <=? op_byte r) && (op_byte r <=? 127)
+  | _ => Nat.eqb (pushw (op_byte r)) 0
+  end.
+Lemma table_pc_ok : forallb row_pc_ok opcode_table = true.
+Proof. vm_compute. reflexivity. Qed.
+
+Section Pc.
+  Variable ops : word_ops.
+  Variable E : env.
+  Hypothesis Hops : ops_ok ops.
+
+  Definition next_pc (s : mstate) : Z := m_pc s + 1 + Z.of_nat (pushw (byte_at (code E) (m_pc s))).
+
+  Lemma exec_stackop_pc r s s' : exec_stackop r s = SNext s' -> m_pc s' = m_pc s + 1.
+  Proof.
+    unfold exec_stackop, fail. destruct (op_instr r); try discriminate;
+      repeat match goal with
+             | |- context [if ?x then _ else _] => destruct x
+             | |- context [match m_stack s with _ => _ end] => destruct (m_stack s)
+             end; try discriminate; intros [= <-]; reflexivity.
+  Qed.
+
+  Lemma step_pc s s' :
+    wf s -> step ops E s = SNext s' ->
+    m_pc s' = next_pc s \/ valid_jumpdest (code E) (m_pc s' - 1) = true.
+  Proof.
+    intros W. unfold step, next_pc.
+    destruct (lookup_row (byte_at (code E) (m_pc s))) as [r|] eqn:L; [|discriminate].
+    apply lookup_row_in in L. destruct L as [Hin Hb].
+    pose proof table_pc_ok as T. rewrite forallb_forall in T. specialize (T r Hin).
+    unfold row_pc_ok in T. rewrite <- Hb. unfold exec_row.
+    destruct (op_kind r) eqn:K;
+      try (apply Nat.eqb_eq in T; rewrite T;
+           unfold exec_generic;
+           destruct (take_operands r (m_stack s)) as [c|[args stk']] eqn:TO; [discriminate|];
+           assert (Ra : Forall in_range args);
+           [ unfold take_operands in TO; destruct (op_pre r);
+             repeat match type of TO with
+                    | context [if ?x then _ else _] => destruct x; try discriminate
+                    end;
+             injection TO as <- <-; try constructor; apply Forall_take; apply W
+           | pose proof (sem_spec ops E Hops (op_instr r) args (set_stack stk' s) Ra) as SP;
+             destruct (sem ops E (op_instr r) args (set_stack stk' s)) as [v s1|s1|p s1|o s1|c s1]; cbn in SP;
+             unfold fail, push_checked;
+             repeat match goal with
+                    | |- context [match ?x with _ => _ end] => destruct x
+                    end; try discriminate; intros [= <-]; cbn;
+             try (left; lia);
+             destruct SP as [_ [->|V]]; [left; cbn; lia|right; exact V] ]).
+    - (* PUSHn *)
+      apply andb_true_iff in T. destruct T as [T _]. apply andb_true_iff in T. destruct T as [T _].
+      apply Z.eqb_eq in T. unfold exec_push, fail, push_checked.
+      repeat match goal with
+             | |- context [if ?x then _ else _] => destruct x
+             end; try discriminate. intros [= <-]. cbn. left. lia.
+    - (* DUP / SWAP / POP *)
+      apply Nat.eqb_eq in T. rewrite T. intros H. apply exec_stackop_pc in H. left. lia.
+  Qed.
+
+  Definition pc_inv (s : mstate) : Prop := 0 <= m_pc s /\ boundary (code E) (Z.to_nat (m_pc s)).
+
+  Lemma nbyte_byte_at c i : 0 <= i -> nbyte c (Z.to_nat i) = byte_at c i.
+  Proof. intros H. unfold nbyte, byte_at. rewrite znth_nth by exact H. reflexivity. Qed.
+
+  (* a step from an instruction boundary inside the code lands on an instruction boundary; when it is
+     a taken jump, the byte before the new pc is a JUMPDEST on a boundary (never push data) *)
+  Theorem jump_lands_on_jumpdest s s' :
+    wf s -> pc_inv s -> m_pc s < codelen E -> step ops E s = SNext s' ->
+    pc_inv s' /\
+    (m_pc s' = next_pc s \/
+     (0 <= m_pc s' - 1 < codelen E /\ byte_at (code E) (m_pc s' - 1) = 91 /\
+      boundary (code E) (Z.to_nat (m_pc s' - 1)))).
+  Proof.
+    intros W (P0 & PB) Hin H. destruct (step_pc s s' W H) as [N|V].
+    - split; [|left; exact N]. unfold pc_inv. rewrite N. unfold next_pc. split; [lia|].
+      replace (Z.to_nat (m_pc s + 1 + Z.of_nat (pushw (byte_at (code E) (m_pc s)))))
+        with (Z.to_nat (m_pc s) + 1 + pushw (nbyte (code E) (Z.to_nat (m_pc s))))%nat
+        by (rewrite nbyte_byte_at by exact P0; lia).
+      apply bnd_S; [exact PB|]. unfold codelen, zlen in Hin. fold (code E). lia.
+    - apply jumpdest_analysis_correct in V. destruct V as (R & B91 & BD).
+      split; [|right; auto]. unfold pc_inv. split; [lia|].
+      pose proof (bnd_S (code E) (Z.to_nat (m_pc s' - 1)) BD) as S.
+      rewrite nbyte_byte_at in S by lia. rewrite B91 in S. cbn in S.
+      replace (Z.to_nat (m_pc s')) with (Z.to_nat (m_pc s' - 1) + 1 + 0)%nat by lia.
+      apply S. unfold zlen in R. lia.
+  Qed.
+
+  Theorem run_visits_boundaries n s s' :
+    wf s -> pc_inv s -> nsteps ops E n s s' -> pc_inv s'.
+  Proof.
+    intros W P N. induction N as [s|n s s1 s2 Hin St N IH]; [exact P|].
+    apply IH.
+    - pose proof (step_spec ops E Hops s W) as SP. rewrite St in SP. apply SP.
+    - eapply jump_lands_on_jumpdest; eauto.
+  Qed.
+End Pc.
+
+(* ------------------------------------------------------------------------------------------------ *)
+(* memory access guard at the instruction level *)
+(* ------------------------------------------------------------------------------------------------ *)
+(* the first memory region an instruction of the memory / copy / hash / exit families validates *)
+Definition mem_args (i : instr) (args : list Z) : option (Z * Z) :=
+  match i, args with
+  | I_MLOAD, [idx] => Some (idx, 32)
+  | I_MSTORE, [idx; _] => Some (idx, 32)
+  | I_MSTORE8, [idx; _] => Some (idx, 1)
+  | I_MCOPY, [_; src; size] => if size =? 0 then None else Some (src, size)
+  | I_KECCAK256, [off; size] => Some (off, size)
+  | I_RETURN, [off; size] | I_REVERT, [off; size] => Some (off, size)
+  | I_CALLDATACOPY, [dest; _; size] | I_CODECOPY, [dest; _; size] | I_RETURNDATACOPY, [dest; _; size] => Some (dest, size)
+  | I_EXTCODECOPY, [_; dest; _; size] => Some (dest, size)
+  | _, _ => None
+  end.
+
+Section MemGuard.
+  Variable ops : word_ops.
+  Variable E : env.
+
+  (* an access whose size, or (for a non-empty region) offset or end, exceeds 32 bits is refused with
+     EVM_CONTRACT_ILLEGAL_MEMORY_ACCESS before anything is read or written *)
+  Theorem memory_access_guard i args s off size :
+    mem_args i args = Some (off, size) ->
+    (U32_MAX < size \/ (size <> 0 /\ (U32_MAX < off \/ U32_MAX < off + size))) ->
+    sem ops E i args s = SemFail EVM_CONTRACT_ILLEGAL_MEMORY_ACCESS s.
+  Proof.
+    intros M G. apply (mem_region_none (m_msize s)) in G.
+    destruct i; cbn in M; try discriminate;
+      destruct args as [|a1 [|a2 [|a3 [|a4 [|a5 ?]]]]]; try discriminate;
+      try (destruct (a3 =? 0) eqn:Z3; [discriminate|]);
+      injection M as <- <-; cbn [sem]; unfold do_exit, copy_to_memory; try rewrite Z3; rewrite G; reflexivity.
+  Qed.
+End MemGuard.
+
+(* ------------------------------------------------------------------------------------------------ *)
+(* the opcode assignment against the Ethereum specification *)
+(* ------------------------------------------------------------------------------------------------ *)
+(* Written by hand from the Yellow Paper (Shanghai: PUSH0) + EIP-1153 (TLOAD/TSTORE), EIP-5656 (MCOPY),
+   EIP-7939 (CLZ at 0x1e), EIP-145, EIP-1014, EIP-211, EIP-214, EIP-1344, EIP-1884, EIP-3198, EIP-4399.
+   Ethereum opcodes FEVM leaves undefined: 0x49 BLOBHASH, 0x4a BLOBBASEFEE, 0xf2 CALLCODE. *)
+Definition spec_table : list (Z * instr) :=
+  [ (0x00, I_STOP); (0x01, I_ADD); (0x02, I_MUL); (0x03, I_SUB); (0x04, I_DIV); (0x05, I_SDIV); (0x06, I_MOD);
+    (0x07, I_SMOD); (0x08, I_ADDMOD); (0x09, I_MULMOD); (0x0a, I_EXP); (0x0b, I_SIGNEXTEND);
+    (0x10, I_LT); (0x11, I_GT); (0x12, I_SLT); (0x13, I_SGT); (0x14, I_EQ); (0x15, I_ISZERO); (0x16, I_AND);
+    (0x17, I_OR); (0x18, I_XOR); (0x19, I_NOT); (0x1a, I_BYTE); (0x1b, I_SHL); (0x1c, I_SHR); (0x1d, I_SAR);
+    (0x1e, I_CLZ); (0x20, I_KECCAK256);
+    (0x30, I_ADDRESS); (0x31, I_BALANCE); (0x32, I_ORIGIN); (0x33, I_CALLER); (0x34, I_CALLVALUE);
+    (0x35, I_CALLDATALOAD); (0x36, I_CALLDATASIZE); (0x37, I_CALLDATACOPY); (0x38, I_CODESIZE);
+    (0x39, I_CODECOPY); (0x3a, I_GASPRICE); (0x3b, I_EXTCODESIZE); (0x3c, I_EXTCODECOPY);
+    (0x3d, I_RETURNDATASIZE); (0x3e, I_RETURNDATACOPY); (0x3f, I_EXTCODEHASH);
+    (0x40, I_BLOCKHASH); (0x41, I_COINBASE); (0x42, I_TIMESTAMP); (0x43, I_NUMBER); (0x44, I_PREVRANDAO);
+    (0x45, I_GASLIMIT); (0x46, I_CHAINID); (0x47, I_SELFBALANCE); (0x48, I_BASEFEE);
+    (0x50, I_POP); (0x51, I_MLOAD); (0x52, I_MSTORE); (0x53, I_MSTORE8); (0x54, I_SLOAD); (0x55, I_SSTORE);
+    (0x56, I_JUMP); (0x57, I_JUMPI); (0x58, I_PC); (0x59, I_MSIZE); (0x5a, I_GAS); (0x5b, I_JUMPDEST);
+    (0x5c, I_TLOAD); (0x5d, I_TSTORE); (0x5e, I_MCOPY); (0x5f, I_PUSH0);
+    (0x60, I_PUSH1); (0x61, I_PUSH2); (0x62, I_PUSH3); (0x63, I_PUSH4); (0x64, I_PUSH5); (0x65, I_PUSH6);
+    (0x66, I_PUSH7); (0x67, I_PUSH8); (0x68, I_PUSH9); (0x69, I_PUSH10); (0x6a, I_PUSH11); (0x6b, I_PUSH12);
+    (0x6c, I_PUSH13); (0x6d, I_PUSH14); (0x6e, I_PUSH15); (0x6f, I_PUSH16); (0x70, I_PUSH17); (0x71, I_PUSH18);
+    (0x72, I_PUSH19); (0x73, I_PUSH20); (0x74, I_PUSH21); (0x75, I_PUSH22); (0x76, I_PUSH23); (0x77, I_PUSH24);
+    (0x78, I_PUSH25); (0x79, I_PUSH26); (0x7a, I_PUSH27); (0x7b, I_PUSH28); (0x7c, I_PUSH29); (0x7d, I_PUSH30);
+    (0x7e, I_PUSH31); (0x7f, I_PUSH32);
+    (0x80, I_DUP1); (0x81, I_DUP2); (0x82, I_DUP3); (0x83, I_DUP4); (0x84, I_DUP5); (0x85, I_DUP6); (0x86, I_DUP7);
+    (0x87, I_DUP8); (0x88, I_DUP9); (0x89, I_DUP10); (0x8a, I_DUP11); (0x8b, I_DUP12); (0x8c, I_DUP13);
+    (0x8d, I_DUP14); (0x8e, I_DUP15); (0x8f, I_DUP16);
+    (0x90, I_SWAP1); (0x91, I_SWAP2); (0x92, I_SWAP3); (0x93, I_SWAP4); (0x94, I_SWAP5); (0x95, I_SWAP6);
+    (0x96, I_SWAP7); (0x97, I_SWAP8); (0x98, I_SWAP9); (0x99, I_SWAP10); (0x9a, I_SWAP11); (0x9b, I_SWAP12);
+    (0x9c, I_SWAP13); (0x9d, I_SWAP14); (0x9e, I_SWAP15); (0x9f, I_SWAP16);
+    (0xa0, I_LOG0); (0xa1, I_LOG1); (0xa2, I_LOG2); (0xa3, I_LOG3); (0xa4, I_LOG4);
+    (0xf0, I_CREATE); (0xf1, I_CALL); (0xf3, I_RETURN); (0xf4, I_DELEGATECALL); (0xf5, I_CREATE2);
+    (0xfa, I_STATICCALL); (0xfd, I_REVERT); (0xfe, I_INVALID); (0xff, I_SELFDESTRUCT) ].
+
+(* height / width arguments of the stack instructions, per the specification *)
+Definition spec_stack_arg (b : Z) : Z :=
+  if (0x5f <=? b) && (b <=? 0x7f) then b - 0x5f
+  else if (0x80 <=? b) && (b <=? 0x8f) then b - 0x7f
+  else if (0x90 <=? b) && (b <=? 0x9f) then b - 0x8f
+  else if (0xa0 <=? b) && (b <=? 0xa4) then b - 0xa0
+  else 0.
+
+Lemma opcode_table_matches_spec :
+  map (fun r => (op_byte r, op_instr r)) opcode_table = spec_table /\
+  forallb (fun r => op_arg r =? spec_stack_arg (op_byte r)) opcode_table = true /\
+  unreachable_instrs = [].
+Proof. vm_compute. auto. Qed.
